@@ -7,7 +7,7 @@ from harness.common import Check
 from translate import models as t_models
 
 THEOREMS = ["C20_ClgnMnist", "C20_ClgnCifar10", "C20_ClgnCifar10Res", "C20_ClgnCifar10Tiny", "C20_ClgnCifar10Mini", "C20_CNN",
-            "C20_Dlgn", "C20_fixed_scale_classes"]
+            "C20_Dlgn", "C20_exceptional_scales", "C20_fixed_scale_classes"]
 TRUSTED = [
     "Coq 8.16.1 kernel/coqc; theorems closed under the global context (lia with Z.div_mod_to_equations; vm_compute on closed spatial sizes)",
     "translator translate/models.py: symbolic construction of every exported class with recording stub layers that bind their "
@@ -99,6 +99,23 @@ def run(ck: Check):
                         ck.disagree("eval output times tau is not an integer count", case, observed=ye.tolist(),
                                     signature={"class": name, "what": "integral"})
                 coq_items.append((coqname, k, shape, shapes, case))
+    # scales at which a comparison inside a constructor takes the other branch (reported by the translator): the real class there
+    for cls, kwargs, shape in list(t_models.LAST_EXCEPTIONAL)[:6]:
+        case = {"class": cls, "exceptional_scale": True, **{k_: v for k_, v in kwargs.items()}}
+        ck.case(case, nontrivial=True, kind="exceptional-scale")
+        try:
+            torch.manual_seed(ck.seed)
+            model = getattr(M, cls)(device="cpu", **kwargs)
+            xb = (torch.rand(2, *shape) > 0.5).float()
+            for mode in ("train", "eval"):
+                model.train(mode == "train")
+                with torch.no_grad():
+                    y = model(xb)
+                if list(y.shape) != [2, 10] or not torch.isfinite(y).all():
+                    raise ValueError(f"{mode} output of shape {list(y.shape)}")
+        except Exception as e:
+            ck.disagree("exported model class fails at a scale where a constructor comparison flips", case, observed=repr(e)[:300],
+                        signature={"class": cls, "what": "exceptional-scale"})
     # baselines construct and run
     for nm, mk, x in (("FullyConnectedNN", lambda: FullyConnectedNN(12, 7, 3, 4, torch.float32), torch.rand(2, 3, 4)),
                       ("FullyConnectedNN-2", lambda: FullyConnectedNN(12, 5, 2, 3, torch.float32), torch.rand(3, 12)),
